@@ -276,6 +276,102 @@ def _shard(sh: Dict[str, Any]) -> Dict[str, Any]:
     return par.shard_result(eng, shard=f"kind0={KINDS[k0]},early={early}", cex=cex, samples=samples)
 
 
+# ----------------------------------------------------------- two threads, glue that blocks
+OB2 = "C17.two-threads(glue call parks while another thread starts extracting)"
+
+
+def two_thread_case(kinds: List[int], park: int, third_thread: bool) -> Optional[str]:
+    """Thread 1 extracts and parks INSIDE the glue function of module `park`; thread 2 (and 3)
+    then start extracting.  Whenever an extraction returns, every module imported before it
+    started must have its glue completed.  The schedule is forced through the (blocking) glue
+    call itself, so no source hook is needed; it covers the preemption point 'inside a glue
+    call' of add_glue_as_needed, not the others."""
+    import threading
+    import time
+
+    parked, release = threading.Event(), threading.Event()
+    completed: List[str] = []
+    problems: List[str] = []
+    with Sim(kinds) as sim:
+        for i in range(2):
+            sim.register_builtin(i)
+        # replace the glue functions with ones that log completion (and park)
+        def mk(i: int, which: str) -> Any:
+            def fn() -> None:
+                if i == park:
+                    parked.set()
+                    release.wait(20)
+                completed.append(NAMES[i])
+                sim.events.append((1, which, NAMES[i], 1))
+            return fn
+
+        for i in range(2):
+            sim.add(i, fresh=False)
+            kind = sim.kinds[i]
+            if kind in ("module", "both"):
+                sim.objs[i]._stackscope_install_glue_ = mk(i, "module")  # type: ignore[union-attr]
+            if kind in ("builtin", "both"):
+                _glue.builtin_glue_pending[NAMES[i]] = mk(i, "builtin")
+
+        def worker(name: str) -> None:
+            try:
+                with warnings.catch_warnings():
+                    warnings.simplefilter("ignore")
+                    st = stackscope.extract(42, with_contexts=False)
+                missing = [NAMES[i] for i in range(2) if NAMES[i] not in completed]
+                if missing:
+                    problems.append(f"{name}'s extract returned while glue of {missing} had not completed")
+                if st.error is not None:
+                    problems.append(f"{name}: error {st.error!r}")
+            except BaseException as ex:  # noqa
+                problems.append(f"{name} raised {ex!r}")
+
+        t1 = threading.Thread(target=worker, args=("thread 1",))
+        t1.start()
+        if not parked.wait(10):
+            release.set()
+            t1.join(5)
+            return "glue of the parking module never ran"
+        others = [threading.Thread(target=worker, args=(f"thread {k}",)) for k in ((2, 3) if third_thread else (2,))]
+        for t in others:
+            t.start()
+        deadline = time.monotonic() + 0.25
+        while time.monotonic() < deadline and any(t.is_alive() for t in others):
+            time.sleep(0.01)
+        release.set()
+        t1.join(10)
+        for t in others:
+            t.join(10)
+        if any(t.is_alive() for t in [t1] + others):
+            return "deadlock"
+        if problems:
+            return problems[0]
+        for i in range(2):
+            if completed.count(NAMES[i]) != 1:
+                return f"glue of {NAMES[i]} completed {completed.count(NAMES[i])} times"
+    return None
+
+
+def _shard2(sh: Dict[str, Any]) -> Dict[str, Any]:
+    cex: List[Dict[str, Any]] = []
+    samples: List[Any] = []
+    two_kinds = [0, 1, 2]  # module, builtin, both (non-raising)
+
+    def harness(e: Engine) -> None:
+        kinds = [two_kinds[e.choice("kind_a", 3)], two_kinds[e.choice("kind_b", 3)], 0]
+        park = e.choice("parking_module", 2)
+        third = e.flag("third_thread")
+        why = two_thread_case(kinds, park, third)
+        if len(samples) < 1:
+            samples.append({"kinds": [KINDS[k] for k in kinds[:2]], "park": park, "threads": 3 if third else 2})
+        if why and len(cex) < 3:
+            cex.append({"threads": True, "kinds": kinds, "park": park, "third": third, "why": why, "f4": False})
+
+    eng = Engine(max_seconds=300)
+    eng.explore(harness)
+    return par.shard_result(eng, shard="two-threads", cex=cex, samples=samples)
+
+
 def run(rep: Any, tier: str, seed: int) -> None:
     import z3
 
@@ -285,16 +381,22 @@ def run(rep: Any, tier: str, seed: int) -> None:
     nn = 2 if tier == "quick" else 3
     rep.bounds = {"history_length": f"{L} operations + a final extract", "module_names": nn, "glue_kinds": KINDS,
                   "operations": "extract, add, remove, add a fresh object under a removed name, re-add the same object, late built-in registration"}
-    rep.outside = ["2..4 threads entering add_glue_as_needed concurrently (needs source hooks + scheduler; not attempted)",
+    rep.outside = ["thread schedules other than 'thread 1 is inside a glue call while threads 2(,3) start extracting' (other preemption points need source hooks + a scheduler; not attempted)",
                    "in-place replacement sys.modules[name] = other without removal", "histories longer than the bound"]
     rep.stubs = ["_glue.sys rebound to a private namespace whose .modules is a harness-owned dict pre-filled with 3 filler modules; replay uses the real sys.modules"]
     shards = [{"len": L, "names": nn, "kind0": k, "early": ea} for k in range(len(KINDS)) for ea in (True, False)]
     res = par.run_shards("harness.c17", "_shard", shards)
     for c in par.fold(rep, OB, res):
         rep.counterexample(OB, c, c["why"])
+    res = par.run_shards("harness.c17", "_shard2", [{}])
+    for c in par.fold(rep, OB2, res):
+        rep.counterexample(OB2, c, c["why"])
 
 
 def replay(c: Dict[str, Any]) -> Dict[str, Any]:
+    if c.get("threads"):
+        why = two_thread_case(c["kinds"], c["park"], c["third"])
+        return {"status": "reproduces" if why else "not-reproduced", "detail": {"why": why}}
     r = run_history(c["kinds"], c["ops"], c["early"], use_real=True)
     return {"status": "reproduces" if not r["ok"] else "not-reproduced", "detail": r}
 
